@@ -135,10 +135,10 @@ func (a *vC11Auth) answer(r *dns.Msg) *dns.Msg {
 		case name == "." && q.Qtype == dns.TypeNS:
 			m.Authoritative = true
 			m.Answer = []dns.RR{vC11RR(". 3600 IN NS a.root-c11.")}
-			m.Extra = []dns.RR{vC11RR("a.root-c11. 3600 IN A 192.0.2.250")}
+			m.Extra = []dns.RR{vC11RR("a.root-c11. 3600 IN A 198.51.100.250")}
 		case dns.IsSubDomain(vC11LabZone, name):
 			m.Ns = []dns.RR{vC11RR(vC11LabZone + " 3600 IN NS ns1." + vC11LabZone), vC11RR(vC11LabZone + " 3600 IN NS ns2." + vC11LabZone)}
-			m.Extra = []dns.RR{vC11RR("ns1." + vC11LabZone + " 3600 IN A 192.0.2.1"), vC11RR("ns2." + vC11LabZone + " 3600 IN A 192.0.2.2")}
+			m.Extra = []dns.RR{vC11RR("ns1." + vC11LabZone + " 3600 IN A 198.51.100.1"), vC11RR("ns2." + vC11LabZone + " 3600 IN A 198.51.100.2")}
 		default:
 			m.Authoritative = true
 			m.Rcode = dns.RcodeNameError
@@ -149,9 +149,9 @@ func (a *vC11Auth) answer(r *dns.Msg) *dns.Msg {
 	m.Authoritative = true
 	switch {
 	case name == "ns1."+vC11LabZone && q.Qtype == dns.TypeA:
-		m.Answer = []dns.RR{vC11RR(name + " 3600 IN A 192.0.2.1")}
+		m.Answer = []dns.RR{vC11RR(name + " 3600 IN A 198.51.100.1")}
 	case name == "ns2."+vC11LabZone && q.Qtype == dns.TypeA:
-		m.Answer = []dns.RR{vC11RR(name + " 3600 IN A 192.0.2.2")}
+		m.Answer = []dns.RR{vC11RR(name + " 3600 IN A 198.51.100.2")}
 	case q.Qtype == dns.TypeA:
 		m.Answer = []dns.RR{vC11RR(name + " 60 IN A 192.0.2.80")}
 	default:
@@ -401,7 +401,7 @@ func TestVerifC11Lab(t *testing.T) {
 	defer lab.root.stop()
 	defer lab.ns1.stop()
 	defer lab.ns2.stop()
-	lab.remap = map[string]string{"192.0.2.250:53": lab.root.addr, "192.0.2.1:53": lab.ns1.addr, "192.0.2.2:53": lab.ns2.addr}
+	lab.remap = map[string]string{"198.51.100.250:53": lab.root.addr, "198.51.100.1:53": lab.ns1.addr, "198.51.100.2:53": lab.ns2.addr}
 
 	serial := 0
 	for c := 0; c < n; c++ {
@@ -421,7 +421,18 @@ func TestVerifC11Lab(t *testing.T) {
 		if longNet {
 			cfg.Timeout.Duration = 2 * time.Second
 		}
-		tiny := r.Intn(4) == 0
+		// template: every name has one name server that answers at once and one that stays
+		// silent, and the clients bring a long budget: the round is over in milliseconds, and
+		// whatever still holds a concurrency slot afterwards is a straggler nobody interrupted
+		quickWin := r.Intn(4) == 0
+		qt := vC11QT
+		if quickWin {
+			qt = 2 * time.Second
+			cfg.Timeout.Duration = 2 * time.Second
+			cfg.QueryTimeout.Duration = qt
+			longNet = true
+		}
+		tiny := r.Intn(4) == 0 && !quickWin
 		if tiny {
 			cfg.MaxConcurrentQueries = 1 + r.Intn(2) // forces capacity refusals
 		}
@@ -447,6 +458,22 @@ func TestVerifC11Lab(t *testing.T) {
 		if nocache {
 			handlers = []middleware.Handler{h}
 		}
+		// steady state: a resolver that has already talked to both name servers (their
+		// round-trip times are measured, so it races the two fastest instead of probing)
+		warmed := quickWin || r.Intn(2) == 0
+		if warmed {
+			for wq := 0; wq < 4; wq++ {
+				serial++
+				msg := new(dns.Msg)
+				msg.SetQuestion(fmt.Sprintf("ok-ok-%d.%s", serial, vC11LabZone), dns.TypeA)
+				msg.SetEdns0(1232, false)
+				wctx, wcancel := context.WithTimeout(context.Background(), 2*time.Second)
+				ch := middleware.NewChain(handlers)
+				ch.Reset(&vC11LabTransport{}, msg)
+				ch.Next(wctx)
+				wcancel()
+			}
+		}
 		time.Sleep(5 * time.Millisecond)
 		baseline := runtime.NumGoroutine()
 
@@ -462,7 +489,7 @@ func TestVerifC11Lab(t *testing.T) {
 		}
 		nnames := 1 + r.Intn(3)
 		// template: the singleflight leader's client leaves while the lookup is in the air
-		leaderLeaves := nocache && !tiny && r.Intn(2) == 0
+		leaderLeaves := nocache && !tiny && !quickWin && r.Intn(2) == 0
 		var qs []*qrec
 		for i := 0; i < nnames; i++ {
 			serial++
@@ -470,6 +497,12 @@ func TestVerifC11Lab(t *testing.T) {
 			s2 := vC11Scripts[r.Intn(len(vC11Scripts))]
 			if r.Intn(4) == 0 {
 				s2 = s1
+			}
+			if quickWin {
+				s1, s2 = []string{"ok", "lag"}[r.Intn(2)], []string{"drop", "late"}[r.Intn(2)]
+				if r.Intn(2) == 0 {
+					s1, s2 = s2, s1
+				}
 			}
 			name := fmt.Sprintf("%s-%s-%d.%s", s1, s2, serial, vC11LabZone)
 			g1, g2 := vC11ScriptGood(s1), vC11ScriptGood(s2)
@@ -483,7 +516,7 @@ func TestVerifC11Lab(t *testing.T) {
 			dups := 1 + r.Intn(5)
 			for d := 0; d < dups; d++ {
 				q := &qrec{name: name, s1: s1, s2: s2, expect: expect, cancelAt: -1, tr: &vC11LabTransport{}, done: make(chan struct{})}
-				if r.Intn(5) == 0 {
+				if r.Intn(5) == 0 && !quickWin {
 					q.cancelAt = time.Duration(5+r.Intn(120)) * time.Millisecond
 					q.cancelled = true
 				}
@@ -518,7 +551,7 @@ func TestVerifC11Lab(t *testing.T) {
 			go func() {
 				defer close(q.done)
 				defer cancel()
-				ctx := contextutil.WithLazyDeadline(parent, q.start.Add(vC11QT))
+				ctx := contextutil.WithLazyDeadline(parent, q.start.Add(qt))
 				defer ctx.Cancel()
 				ch := middleware.NewChain(handlers)
 				ch.Reset(q.tr, msg)
@@ -632,6 +665,12 @@ func TestVerifC11Lab(t *testing.T) {
 		}
 		if longNet {
 			k += "-longnet"
+		}
+		if quickWin {
+			k += "-quickwin"
+		}
+		if warmed {
+			k += "-warmed"
 		}
 		if slotsMs > int(vC11QT/time.Millisecond) && goFail == "" {
 			goFail = fmt.Sprintf("concurrency slots still held %d ms after the last client was answered", slotsMs)
